@@ -1801,6 +1801,40 @@ func ruleR47(c *Ctx) {
 					factsOf(in, ifs.Cond, false, &facts)
 				}
 			}
+			// a tagless switch is an if / else-if chain: the clause's own condition holds, those of the clauses
+			// before it do not (for `default`: none of the others does)
+			for cur := p.Parent(se); cur != nil && cur != ast.Node(f.Body); cur = p.Parent(cur) {
+				cc, ok := cur.(*ast.CaseClause)
+				if !ok {
+					continue
+				}
+				blk, _ := p.Parent(cc).(*ast.BlockStmt)
+				if blk == nil {
+					continue
+				}
+				sw, _ := p.Parent(blk).(*ast.SwitchStmt)
+				if sw == nil || sw.Tag != nil {
+					continue
+				}
+				for _, st := range blk.List {
+					oc := st.(*ast.CaseClause)
+					if oc == cc {
+						if len(cc.List) == 1 {
+							factsOf(in, cc.List[0], true, &facts)
+						}
+						if cc.List != nil {
+							break
+						}
+						continue
+					}
+					if cc.List != nil && oc.Pos() > cc.Pos() {
+						break
+					}
+					for _, e := range oc.List {
+						factsOf(in, e, false, &facts)
+					}
+				}
+			}
 			// guard clauses: earlier sibling `if cond { ...; continue|return|break }` statements in any
 			// enclosing statement list contribute the negation of their condition
 			var child ast.Node = se
